@@ -141,6 +141,8 @@ func init() {
 		vC03(seed, count, extra)
 	case "c02":
 		vC02(seed, count, extra)
+	case "c17":
+		vC17(seed, count, extra)
 	case "transpile-stdin":
 		// one hex-encoded source per line -> "ok <hex go>" | "err <hex msg>"
 		sc := bufio.NewScanner(os.Stdin)
